@@ -86,6 +86,14 @@ Def(op, pr, x) ==
     [] op = "square" -> <<M(x[1] * x[1])>>
     [] op = "add_constant" -> <<M(x[1] + pr[1])>>
     [] op = "mul_by_constant" -> <<M(x[1] * M(pr[1]))>>
+    \* arithmetic whose operands come from a chosen source: pr = <<opcode, has_m, m, mode, c>>; mode 0: both operands are
+    \* witnesses; mode 1 / 2: the second / first operand is the fixed-constant cell of value c
+    [] op = "arith_src" ->
+         LET a == IF pr[4] = 2 THEN M(pr[5]) ELSE x[1]
+             b == IF pr[4] = 0 THEN x[2] ELSE IF pr[4] = 1 THEN M(pr[5]) ELSE x[1]
+         IN CASE pr[1] = 0 -> <<M(a + b)>>
+              [] pr[1] = 1 -> <<M(a - b)>>
+              [] OTHER -> <<M(M(IF pr[2] = 1 THEN M(pr[3]) ELSE 1) * M(a * b))>>
     [] op = "lincomb" -> <<M(M(M(pr[1]) * x[1]) + M(M(pr[2]) * x[2]) + M(M(pr[3]) * x[3]) + M(pr[4]))>>
     [] op = "add_and_mul" ->
          <<M(M(M(pr[1]) * x[1]) + M(M(pr[2]) * x[2]) + M(M(pr[3]) * x[3]) + M(pr[4])
@@ -148,6 +156,10 @@ Scenarios ==
   { [op |-> o, params |-> <<>>, ins |-> <<a>>] : o \in {"neg", "inv", "inv0", "square", "is_zero", "sgn0"}, a \in NatIn }
   \cup { [op |-> o, params |-> <<>>, ins |-> <<p[1], p[2]>>] : o \in {"add", "sub", "mul", "div", "is_equal", "is_not_equal"}, p \in Pairs }
   \cup { [op |-> o, params |-> <<c>>, ins |-> <<a>>] : o \in {"add_constant", "mul_by_constant", "is_equal_to_fixed"}, c \in {0, 1, 37, P - 1}, a \in NatIn }
+  \cup { [op |-> "arith_src", params |-> <<oc, hm[1], hm[2], 0, 0>>, ins |-> <<a, b>>] :
+           oc \in {2}, hm \in {<<1, 0>>, <<1, 1>>, <<1, 3>>, <<1, P - 1>>}, a \in {0, 1, 7, P - 1}, b \in {0, 1, 7} }
+  \cup { [op |-> "arith_src", params |-> <<oc, hm[1], hm[2], mode, c>>, ins |-> <<a>>] :
+           oc \in {0, 1, 2}, hm \in {<<0, 0>>, <<1, 0>>, <<1, 1>>, <<1, 3>>, <<1, P - 1>>}, mode \in {1, 2}, c \in {0, 1, 5, P - 1}, a \in {0, 1, 7, P - 1} }
   \cup { [op |-> "lincomb", params |-> <<c[1], c[2], 1, c[3]>>, ins |-> <<a, b, 7>>] : c \in {<<1, 1, 0>>, <<2, P - 1, 5>>, <<0, 0, 0>>}, a \in Small, b \in Small }
   \cup { [op |-> "add_and_mul", params |-> <<1, 2, 3, 4, c>>, ins |-> <<a, b, 9>>] : c \in {0, 1, P - 1}, a \in Small, b \in Small }
   \cup { [op |-> o, params |-> <<2>>, ins |-> <<a, b>>] : o \in {"and", "or", "xor"}, a \in {0, 1}, b \in {0, 1} }
